@@ -155,12 +155,16 @@ class Gen:
         rng = self.rng
         if d >= self.max_depth or rng.random() < 0.25:
             return self.int_leaf()
-        opts = ["bin", "len", "index", "dget", "attr", "call", "abs", "minmax", "sum", "ifexp", "neg", "method", "total", "pick"]
+        opts = ["bin", "len", "index", "dget", "attr", "call", "abs", "minmax", "sum", "ifexp", "neg", "method", "total", "pick", "pos"]
         if self.has("walrus") and d <= 1:
             opts.append("walrus")
         if self.env.with_none:
             opts.append("n_or")
         k = rng.choice(opts)
+        if k == "pos":
+            # unary plus is not the identity: +True is 1 (and an object may define __pos__ as it likes)
+            inner = "{} {} {}".format(self.int_leaf(), rng.choice(["<", ">=", "!="]), self.int_leaf())
+            return rng.choice(["ident(+({}))", "max(+({}), 0)", "pick([+({})], 0)"]).format(inner)
         if k == "bin":
             op = rng.choice(["+", "-", "*", "//", "%", "+", "-", "<<", "&", "|", "^", "**"])
             right = self.int_expr(d + 1)
